@@ -152,6 +152,26 @@ func (p c04) Exec(c *run.Ctx, idx int, raw json.RawMessage) []run.Result {
 			}
 		}
 	}
+	// the per-type accessor the planner routes by: the owners of a type are the owners of its fields, whatever was asked before
+	{
+		names := sortedKeys(tm)
+		order := append(append([]string{}, names...), names...)
+		for i := len(names) - 1; i >= 0; i-- {
+			order = append(order, names[i])
+		}
+		for _, tn := range order {
+			want := map[string]bool{}
+			for _, u := range tm[tn].Fields {
+				want[u] = true
+			}
+			got, ok := tm.GetForType(tn)
+			if !ok || strings.Join(got, " ") != strings.Join(sortedKeys(want), " ") {
+				add("owners-of-type-wrong", fmt.Sprintf("GetForType(%s) = %v (ok=%v), the fields of the type are routed to %v", tn, got, ok, sortedKeys(want)))
+				break
+			}
+			checked++
+		}
+	}
 	gotURLs := map[string]bool{}
 	for _, u := range tm.GetURLs() {
 		gotURLs[u] = true
